@@ -135,6 +135,17 @@ CORPUS = [
     'SELECT t, s, first(i) AS f, last(i) AS l FROM #t GROUP BY s, t',
     'SELECT s, first(j) AS f, last(j) AS l, min(j) AS lo FROM #t GROUP BY s',
     'SELECT count(*) AS n, sum(i) AS x, first(s) AS f FROM #t WHERE i > 100',
+    # FROM-subqueries: a grouping key that is not selected, of the same datatype as another subquery column
+    'SELECT a, sum(n) AS x FROM (SELECT s AS a, t AS b, i AS n FROM #t) GROUP BY a, b',
+    'SELECT b, count(*) AS c FROM (SELECT s AS a, t AS b, i AS n, j AS m FROM #t) GROUP BY b, a ORDER BY b, c',
+    'SELECT sum(n) AS x, max(m) AS y FROM (SELECT s AS a, i AS n, j AS m FROM #t) GROUP BY a, m',
+    # the same aggregate twice in one expression; sums of nothing but NULLs; NULL keys; HAVING that is NULL
+    'SELECT s, sum(i) / (sum(i) + 100) AS r, max(i) - min(i) AS w FROM #t GROUP BY s',
+    'SELECT s, sum(i) AS x FROM #t GROUP BY s HAVING sum(i) > 0 AND sum(i) < 100',
+    'SELECT t, sum(j) AS x, count(j) AS c, first(j) AS f, last(j) AS l FROM #t GROUP BY t',
+    'SELECT j, count(*) AS n FROM #t GROUP BY j',
+    'SELECT s, count(*) AS n FROM #t GROUP BY s HAVING max(j) > 4',
+    'SELECT s, count(*) AS n FROM #t GROUP BY s HAVING count(j)',
 ]
 
 
